@@ -54,6 +54,32 @@ type O struct {
 
 // PDF converts the tree to a pdf.Object.
 func (o O) PDF() pdf.Object {
+	// All strings of one tree are carved out of one buffer, one directly
+	// behind the other, the way fields cut from an input line are: a callee
+	// that writes behind the end of a string it was handed (into spare
+	// capacity it does not own) damages the next string of the tree, which
+	// the immutability checks and the read-back then see.
+	return o.pdf(&arena{buf: make([]byte, 0, o.stringBytes())})
+}
+
+type arena struct{ buf []byte }
+
+func (o O) stringBytes() int {
+	n := len(o.S)
+	if o.T != "str" {
+		n = 0
+	}
+	for _, e := range o.A {
+		n += e.stringBytes()
+	}
+	for _, kv := range o.D {
+		n += kv.V.stringBytes()
+	}
+	return n
+}
+
+func (o O) pdf(ar *arena) pdf.Object {
+	a := ar
 	switch o.T {
 	case "null", "":
 		return nil
@@ -69,11 +95,13 @@ func (o O) PDF() pdf.Object {
 		if o.S == nil {
 			return pdf.String(nil)
 		}
-		return pdf.String(append([]byte{}, o.S...))
+		start := len(a.buf)
+		a.buf = append(a.buf, o.S...)
+		return pdf.String(a.buf[start:len(a.buf)])
 	case "arr":
 		a := make(pdf.Array, len(o.A))
 		for i, e := range o.A {
-			a[i] = e.PDF()
+			a[i] = e.pdf(ar)
 		}
 		return a
 	case "nilarr":
@@ -81,7 +109,7 @@ func (o O) PDF() pdf.Object {
 	case "dict":
 		d := make(pdf.Dict, len(o.D))
 		for _, kv := range o.D {
-			d[pdf.Name(kv.K)] = kv.V.PDF()
+			d[pdf.Name(kv.K)] = kv.V.pdf(a)
 		}
 		return d
 	case "nildict":
